@@ -8,7 +8,7 @@ import json, copy, collections, itertools, hashlib, multiprocessing as mp
 from . import common
 from .common import NPROC, quiet_call
 from sysloss.system import System
-from sysloss.components import Source, RLoss, Converter, ILoad, PMux, LinReg, _ComponentTypes
+from sysloss.components import Source, RLoss, Converter, ILoad, PMux, LinReg, Rectifier, _ComponentTypes
 
 LET = {
     "R": lambda n: RLoss(n, rs=0.5),
@@ -18,8 +18,9 @@ LET = {
     "M": lambda n: PMux(n, rs=0.1, ig=1e-4),
     "m": lambda n: PMux(n, rs=[0.1, 0.25], ig=1e-4),   # per-input resistances: the list may be shorter / longer than the inputs it is wired to
     "S": lambda n: Source(n, vo=5.0, rs=0.05),
+    "D": lambda n: Rectifier(n, vdrop=0.2),
 }
-KIND_OF = {"R": "RLoss", "C": "Converter", "I": "ILoad", "M": "PMux", "S": "Source"}
+KIND_OF = {"R": "RLoss", "C": "Converter", "I": "ILoad", "M": "PMux", "S": "Source", "D": "Rectifier"}
 LETTER_OF = {v: k for k, v in KIND_OF.items()}
 SAME_KIND = {"W": "R", "m": "M"}
 
@@ -39,6 +40,8 @@ SEEDS = {
     "railmux": [["ac", "Q0", "C", "A1", "QA"], ["as", "S2", ""], ["ac", ["QA", "S2"], "M", "MX", ""], ["ac", "MX", "I", "A3", ""]],
     # a mux with a per-input resistance list fed by A1 and by A1's own parent: deleting A1 (del_childs=False) merges two inputs
     "muxlist": [["ac", "S1", "R", "A1", ""], ["ac", ["S1", "A1"], "m", "MX", ""], ["ac", "MX", "I", "A3", ""]],
+    # two rectifiers separated by a series element (every kind on the path; links that a del_childs=False re-link creates are links add_comp must accept)
+    "rect": [["ac", "S1", "D", "A1", ""], ["ac", "A1", "R", "A2", ""], ["ac", "A2", "D", "A3", ""], ["ac", "A3", "I", "A4", ""]],
     "freed": [["ac", "S1", "R", "A1", ""], ["ac", "A1", "I", "A2", ""], ["ac", "S1", "C", "A3", ""], ["dc", "A1", True]],
 }
 
@@ -59,6 +62,10 @@ def apply(s, op):
         s.add_comp(list(op[1]) if isinstance(op[1], (list, tuple)) else op[1], comp=LET[op[2]](op[3]), rail=op[4], group=op[5] if len(op) > 5 else "")
     elif k == "cc":
         s.change_comp(op[1], comp=LET[op[2]](op[3]), rail=op[4], group=op[5] if len(op) > 5 else "")
+    elif k == "ccs":  # change_comp handed the very object that is already stored at that node (callers that keep their component objects)
+        idx = s._g.attrs["nodes"].get(op[1])
+        comp = s._g[idx] if idx is not None else LET["R"](op[1])
+        s.change_comp(op[1], comp=comp, rail=op[2], group=op[3] if len(op) > 3 else "")
     elif k == "dc":
         s.del_comp(op[1], del_childs=op[2])
     elif k == "sp":
@@ -140,7 +147,7 @@ def ids(s):
 # ------------------------------------------------------------------------------------------------
 # op menu with deviation costs (DESIGN A.2)
 # ------------------------------------------------------------------------------------------------
-def ops(s, budget, letters="RCIM", phase_ops=True, gone=(), analysis_op=False):
+def ops(s, budget, letters="RCIM", phase_ops=True, gone=(), analysis_op=False, odd=False):
     A = s._g.attrs
     names = list(A["nodes"].keys())
     rails = [r for r in A["rails"].values() if r]
@@ -222,6 +229,13 @@ def ops(s, budget, letters="RCIM", phase_ops=True, gone=(), analysis_op=False):
                 other = [n for n in names if n != t][0]
                 add(c + kc + 2, ["cc", t, L, other, ""])
                 add(c + kc + 2, ["cc", t, L, t, other])
+    for t in names:   # the stored object itself is passed back (same name by construction): rail none / fresh / colliding / a component's name
+        add(1, ["ccs", t, ""])
+        add(2, ["ccs", t, frail])
+        add(2, ["ccs", t, names[0] if names[0] != t else names[-1]])
+        if rails:
+            add(2, ["ccs", t, rails[0]])
+        add(2, ["ccs", t, "", "g3"])
     for c, t in targets:
         add(c, ["dc", t, True])
         add(c + 1, ["dc", t, False])
@@ -233,8 +247,14 @@ def ops(s, budget, letters="RCIM", phase_ops=True, gone=(), analysis_op=False):
         add(2, ["sp", [["N/A", 1.0], ["q", 2.0]]])
         add(2, ["sp", [["p", 4.0], ["N/A", 1.0], ["q", 2.0]]])      # reserved name NOT in first position
         add(2, ["sp", []])
+        if odd:   # durations that are not numbers (C15 only: whatever the call does with them, a refusal must be atomic)
+            add(2, ["sp", [["p", 1.0], ["q", "0.5"]]])
+            add(2, ["sp", [["p", 1.0], ["q", None], ["r", 2.0]]])
+            add(2, ["sp", [["p", [1.0]], ["q", 2.0]]])
         for c, t in [(1, n) for n in names] + [(2, r) for r in rails] + [(2, "nope")]:
             add(c, ["cp", t, ["p"], "l"])
+            add(c, ["cp", t, [], "l"])                                   # an EMPTY configuration (= always active / nominal), as list and as dict
+            add(c, ["cp", t, [], "d"])
             add(c, ["cp", t, ["q", "p"], "l"])                          # a later ["p"] must REPLACE this list, not extend it
             add(c, ["cp", t, [["p", 0.05]], "d"])
             add(c, ["cp", t, [["p", 0.0], ["q", 0.02]], "d"])   # an explicit zero for one phase
@@ -312,6 +332,10 @@ def model_apply(models, op):
             C[op[3]] = new
             for r in C.values():
                 r["parents"] = [op[3] if p == t else p for p in r["parents"]]
+            out.append(m)
+        elif k == "ccs":
+            t = op[1]
+            C[t] = dict(C[t], rail="" if C[t]["letter"] == "I" else op[2], group=op[3] if len(op) > 3 else "", pc="{}")
             out.append(m)
         elif k == "dc":
             t = _owner(m, op[1])
@@ -419,7 +443,7 @@ def build_fresh(model):
         s.set_sys_phases(ph)
     for n in C:
         pc = json.loads(C[n]["pc"])
-        if pc:
+        if pc or C[n]["pc"] != "{}":   # an explicitly configured EMPTY list is part of the structure (it is saved as [] rather than {})
             s.set_comp_phases(n, pc)
     return s
 
@@ -493,7 +517,7 @@ def _expand(task):
             nm = op_[1] if op_[0] == "as" else op_[3]
             if nm not in live and nm not in gone:
                 gone.append(nm)
-    for cost, op in ops(s0, B - used, letters, phase_ops, gone, _CTX.get("analysis_op", False))[part::nparts]:
+    for cost, op in ops(s0, B - used, letters, phase_ops, gone, _CTX.get("analysis_op", False), _CTX.get("odd", False))[part::nparts]:
         s, g = replay(seed, hist)
         idb = ids(s)
         g2, exc = step(s, g, op, werror=_CTX.get("werror", False))
@@ -510,10 +534,10 @@ def _check_state(task):
     return (seed, hist, _CTX["state_check"](seed, hist))
 
 
-def explore(run, seeds, D, B, letters="RCIM", trans_check=None, state_check=None, phase_ops=True, max_states=None, note_family="edits", analysis_op=False, werror=False):
+def explore(run, seeds, D, B, letters="RCIM", trans_check=None, state_check=None, phase_ops=True, max_states=None, note_family="edits", analysis_op=False, werror=False, odd=False):
     """Breadth-first search; returns dict of statistics.  Violating states / transitions are recorded on `run` and not expanded.
     werror: the LAST call of every transition runs with warnings promoted to errors (a warning then rejects the call); prefixes run normally."""
-    _CTX.update(B=B, letters=letters, trans_check=trans_check, state_check=state_check, phase_ops=phase_ops, analysis_op=analysis_op, werror=werror)
+    _CTX.update(B=B, letters=letters, trans_check=trans_check, state_check=state_check, phase_ops=phase_ops, analysis_op=analysis_op, werror=werror, odd=odd)
     ctx = mp.get_context("fork")
     pool = ctx.Pool(NPROC) if NPROC > 1 else None
     mapper = (lambda f, xs: pool.imap_unordered(f, xs, chunksize=4)) if pool else (lambda f, xs: map(f, xs))
